@@ -172,3 +172,22 @@ void h06w(void) {
     WITNESS("h06w-end");
 }
 #endif
+
+#ifdef H_h03h
+/* C03: header stage on the state a successful lead read leaves, exact-size allocations (CBMC's pointer checks are the
+ * guard page), arbitrary header_length (up to 2^64 - lead), arbitrary file length, arbitrary digest (any seal may pass). */
+void h03h(void) {
+    vf_havoc(0);
+    lead_state_t s = mk_after_lead(0, 3, HT);
+    zckCtx *z = s.z;
+    size_t hl = (size_t)s.r.hlen, ls = s.r.lead_size;
+    bool ok = read_header_from_file(z);
+    if(ok) {
+        OBLIGE((u128)ls + s.r.hlen <= (u128)s.fsz, "C03/accepted-header-is-completely-present-in-the-file");
+        OBLIGE(z->header_size == ls + hl && __CPROVER_OBJECT_SIZE(z->header) == ls + hl, "C03/hdrinv-buffer-is-lead-plus-header");
+        WITNESS("h03h-accept");
+    } else {
+        WITNESS("h03h-reject");
+    }
+}
+#endif
